@@ -376,6 +376,13 @@ NAME_POOLS = {
     "special": ["a.b", "(", "+", "a b", "a'", "0", "a1", "a", "10", "-", "ü", "name", "A"],
 }
 SEPS = ["/", "\\", "-", ".", "|"]
+MSEPS = ["->", "::", "=>", "//", "-|-"]          # separators of more than one character
+ALLSEPS = SEPS + MSEPS
+
+
+def char_free(sep, names):
+    """no character of the separator occurs in any name (the guard of the multi-character theorems)"""
+    return not any(ch in n for ch in sep for n in names)
 SHAPES = ["wide", "deep", "mixed", "path", "star"]
 
 
@@ -454,8 +461,47 @@ def gen_attrs(rng, allow_name, rate=0.55, odd=False):
 
 
 def pick_sep(rng, names, multi=False):
-    cands = [s for s in SEPS if not any(s in n for n in names)]
+    many = [s for s in MSEPS if char_free(s, names)]
+    if many and rng.random() < 0.4:
+        return rng.choice(many)
+    cands = [s for s in SEPS if char_free(s, names)]
     return rng.choice(cands) if cands else "/"
+
+
+def pick_tsep(rng, names, dup, sep):
+    """separator of the existing tree: often the one of the paths; with duplicate names disallowed one without
+    characters in common with the names (the tree's separator takes part in the duplicate check)"""
+    if rng.random() < 0.4:
+        return sep
+    cands = ALLSEPS if dup else ([s for s in ALLSEPS if char_free(s, names)] or ["/"])
+    return rng.choice(cands)
+
+
+def gen_k3(rng):
+    """K3 territory: a multi-character separator and one name that starts or ends with one of its characters
+    (substring-free, not character-free): lstrip/rstrip(sep) eat that character"""
+    sep = rng.choice(MSEPS)
+    pool = [n for n in NAME_POOLS["distinct"]]
+    rng.shuffle(pool)
+    root, a, b, c = pool[:4]
+    ch = rng.choice(sorted(set(sep)))
+    family = rng.choice(["new", "new", "add"])
+    if rng.random() < 0.6 or family == "add":
+        bad = c + ch                       # a last component ending with a separator character
+        paths = [[root, a, bad], [root, b]]
+        if ch + sep[:1] == sep[:2] or (c + ch).endswith(sep):
+            paths = [[root, a, c + ch + ch]] + paths[1:]
+    else:
+        bad = ch + root                    # the root starting with a separator character
+        paths = [[bad, a], [bad, b, c]]
+    rng.shuffle(paths)
+    case = {"family": family, "sep": sep, "dup": True, "tsep": "/", "tree": [], "start": 0,
+            "kinds": list(FAMILIES[family]), "stratum": f"{family}/k3territory/distinct"}
+    if family == "add":
+        case["tree"] = [[1, root, []], [2, a, []]]
+        case["tsep"] = rng.choice(ALLSEPS)
+    case["rows"] = [[sep.join(p), gen_attrs(rng, False, 0.3)] for p in paths]
+    return case
 
 
 def render(rng, path, sep, deco=True):
@@ -481,7 +527,7 @@ def gen_suffix_trap(rng):
     r = rng.choice(["a", "b", "ab"])
     mid = rng.choice(["x", "y", "xx", "a"]) + r
     leaf = rng.choice([n for n in ["b", "c", "k", "xa"] if n not in (r, mid)])
-    sep = rng.choice(SEPS)
+    sep = rng.choice(ALLSEPS)
     dup = rng.random() < 0.2
     deep = rng.random() < 0.4
     trap = [r, mid, "m", leaf] if deep else [r, mid, leaf]
@@ -495,7 +541,7 @@ def gen_suffix_trap(rng):
             rows.insert(rng.randint(0, 1), [render(rng, [r, "q"], sep), []])
     else:
         case["tree"] = [[i + 1, n, []] for i, n in enumerate(trap)]
-        case["tsep"] = rng.choice([sep, "/"])
+        case["tsep"] = rng.choice([sep, "/", "::", "->"])
         rows = [[render(rng, want, sep), gen_attrs(rng, False, 0.3)]]
         if rng.random() < 0.4:
             rows.append([render(rng, [r, "q"], sep), []])
@@ -534,7 +580,7 @@ def gen_nodup_deep(rng):
     names = pool[:]
     rng.shuffle(names)
     root = names.pop()
-    sep = rng.choice(SEPS)
+    sep = rng.choice(ALLSEPS)
     family = rng.choice(["new", "add", "add"])
     paths = []
     for _ in range(rng.randint(1, 3)):
@@ -561,7 +607,7 @@ def gen_nodup_deep(rng):
         for k in range(2, rng.randint(2, len(base))):
             keep.append(base[:k])
         case["tree"] = [[len(p), p[-1], gen_attrs(rng, False, 0.3)] for p in keep]
-        case["tsep"] = rng.choice([s for s in SEPS if s != sep])
+        case["tsep"] = rng.choice([s for s in ALLSEPS if s != sep])
         case["start"] = rng.randrange(len(keep))
     case["rows"] = [[render(rng, p, sep), gen_attrs(rng, False, 0.4)] for p in paths]
     return case
@@ -576,6 +622,8 @@ def _gen_case(rng, family=None):
         return gen_suffix_trap(rng)
     if family is None and rng.random() < 0.06:
         return gen_nodup_deep(rng)
+    if family is None and rng.random() < 0.03:
+        return gen_k3(rng)
     family = family or rng.choice(["new", "new", "add", "add", "add", "name"])
     pool_name = rng.choice(list(NAME_POOLS))
     pool = NAME_POOLS[pool_name]
@@ -591,7 +639,7 @@ def _gen_case(rng, family=None):
 
     if family == "name":
         case["tree"] = [[len(p), p[-1], gen_attrs(rng, False, 0.3)] for p in _preorder(nodes)]
-        case["tsep"] = rng.choice(SEPS)
+        case["tsep"] = rng.choice(ALLSEPS)
         case["start"] = rng.randrange(len(nodes)) if rng.random() < 0.4 else 0
         rows = []
         cand = names + ["zq"]
@@ -661,7 +709,7 @@ def _gen_case(rng, family=None):
             keep = [keep[0]] + rest
         pre = _preorder(keep)
         case["tree"] = [[len(p), p[-1], gen_attrs(rng, False, 0.3)] for p in pre]
-        case["tsep"] = sep if rng.random() < 0.5 else rng.choice(SEPS)
+        case["tsep"] = pick_tsep(rng, names, dup, sep)
         case["start"] = rng.randrange(len(pre)) if rng.random() < 0.4 else 0
     return case
 
@@ -784,7 +832,7 @@ def sample(prop, case, obs):
 
 def rule(prop):
     return ("row lists derived from random name tries (<= 12 nodes; shapes wide/deep/mixed/path/star; name pools "
-            "distinct/repeated/affix/special; 5 single-character separators with optional (double) leading/trailing separator; "
+            "distinct/repeated/affix/special; separators: 5 single-character and 5 multi-character ('->', '::', '=>', '//', '-|-'; ~40% of cases, also for the existing tree's own separator), chosen with no character in common with any name, optional (double) whole leading/trailing separator; a K3-territory stratum (multi-character separator and a name starting/ending with one of its characters); "
             "attribute dicts with nulls, falsy values 0/''/False and keys that are not identifiers ('age group', 'unit-cost', "
             "'_flag', 'class', '2024'); malformed: wrong root, empty component, no rows; targeted strata: suffix trap "
             "(a/xa/b + a/b, duplicates disallowed), nodup-deep (duplicates disallowed, depth >= 4, input separator != tree "
@@ -813,7 +861,7 @@ def matches_finding(prop, entry, case, obs, flags):
     if entry.get("id") != "K3-C05":
         return False
     sep = case["sep"]
-    if len(sep) < 2 or (flags & 1):
+    if len(sep) < 2 or flags != 2:
         return False
     chars = set(sep)
     for p, _ in case["rows"]:
@@ -843,19 +891,27 @@ def trusted_base(prop):
 
 def partial_clauses(prop):
     return [
-        "C05_model_satisfies_prop_partial (prop_C05 k i (run k i) = true, the predicate evaluated on every implementation "
-        "output, accepted and refused inputs, either duplicate_name_allowed): proved for list_to_tree, dict_to_tree, "
-        "add_path_to_tree, add_dict_to_tree_by_path under the guard: single-character path separator; existing tree's attribute "
-        "dicts have distinct keys; with duplicates disallowed the tree's own separator is a single character.  Not covered by "
-        "the umbrella theorem: the DataFrame/polars entry points (their clauses are C05_frame_to_tree_closure, C05_attrs_frame, "
-        "C05_attrs_frame_nulls, C05_attrs_rows_exact, C05_accept_verdict; duplicate-attribute detection and the frame glue are "
-        "compared by the correspondence only) and the boolean prop_byname (the by-name entry points have the Prop-level "
-        "theorems C05_by_name_exact / _dict / _frame / _frame_rows)",
-        "C05_no_dup_accept_iff, direction 'accepted => same as with duplicates allowed': under the guard that the tree's "
-        "separator is one character occurring in no node name and no path component (the code compares joined path strings); "
-        "the converse (C05_no_dup_accepts_distinct) and C05_no_dup_distinct are unguarded",
-        "C05_leading_trailing_sep / C05_sep_independent / C05_parse_agrees and the umbrella theorem: single-character "
-        "separators only (multi-character separators: known finding K3-C05, Example C05_multichar_sep_refuted)",
+        "C05_model_satisfies_prop_{list,dict,add_path,add_dict}[_multi] (prop_C05 k i (run k i) = true, the predicate "
+        "evaluated on every implementation output, accepted and refused inputs, either duplicate_name_allowed): proved for "
+        "separators of ANY positive length under the guard: every path string satisfies PG (the specification's and the code's "
+        "reading agree) - true of every string for a one-character separator (C05_parse_guard_single) and of every `rendered` "
+        "string (names non-empty and free of separator characters, joined by the separator, whole leading/trailing "
+        "separators; C05_parse_guard_rendered) for longer ones; existing tree's attribute dicts have distinct keys; with "
+        "duplicates disallowed nodup_guard: start names distinct and no character of the separator the tree works with in any "
+        "name or path component (for one-character separators this is derived from prop_C05's own guards).  Without the "
+        "guard the statement is false for separators of length >= 2 (known finding K3-C05, Example "
+        "C05_multichar_sep_refuted).  Not covered by the umbrella theorems: the DataFrame/polars entry points (their clauses: "
+        "C05_frame_to_tree_closure, C05_attrs_frame, C05_attrs_frame_nulls, C05_attrs_rows_exact, C05_accept_verdict; "
+        "duplicate-attribute detection and the frame glue are compared by the correspondence only) and the boolean "
+        "prop_byname (by-name entry points: Prop-level C05_by_name_exact / _dict / _frame / _frame_rows)",
+        "C05_no_dup_accept_iff[_multi] / C05_no_dup_names[_multi], direction 'accepted => same as with duplicates allowed': "
+        "under the guard that no character of the tree's separator (any positive length) occurs in a node name or path "
+        "component (the code compares joined path strings); the converse (C05_no_dup_accepts_distinct) and "
+        "C05_no_dup_distinct are unguarded",
+        "C05_sep_independent[_multi] / C05_parse_agrees[_multi] / C05_add_path_paths_multi: names non-empty and free of the "
+        "separator's characters (sgood); C05_leading_trailing_sep[_multi] needs no guard on names.  prop_C05's own guard for "
+        "duplicates disallowed tests substring-freeness (contains), which is weaker than character-freeness for separators "
+        "of length >= 2; the theorems assume the stronger nodup_guard there",
         # deliberately accepted blind spots of the correspondence (leniency audit)
         "BLIND SPOT exception class: only accepted/refused is compared (the property names no class); which exception a "
         "refusal raises can change unnoticed",
